@@ -12,6 +12,6 @@ JOBS = [
  _j("SCPI_RegClearBits", "same clauses with val = old & ~bits, against SCPI_RegSet/SCPI_RegGet contracts", replace=["SCPI_RegSet", "SCPI_RegGet"], kind="P", bound="", cbmc_flags=[]),
  _j("SCPI_RegGet", "returns the register or 0", kind="P", bound="", props=["C11", "C01"]),
  dict(name="regs.SCPI_RegSet_safety", props=["C01"], kind="PU", bound="propagation loop unwound, unwinding assertion on",
-      harness="h_regs.c", entry="h_SCPI_RegSet_safety", contracts=["regs.h"], cbmc_flags=_U, loops=False,
+      harness="h_regs.c", entry="h_SCPI_RegSet_safety", contracts=["regs.h"], cbmc_flags=["--unwind", "12", "--unwinding-assertions"], loops=False,
       what="memory safety/termination of SCPI_RegSet for arbitrary registers, NULL context, NULL interface/callback"),
 ]
